@@ -22,13 +22,22 @@
     that keeps the text and leaf nodes.  Helpers: Proofs/Level.lean, LevelReplace.lean, ContentBetween.lean,
     SplitSuccess.lean, JoinSuccess.lean, LiftSuccess.lean, LiftSplit.lean, WrapSuccess.lean.
   * **an approved insertion succeeds** (`insert_point`, `drop_point`, `join_point`; section INSERT below):
-    `insertPoint_insert_applies` (`insertGuard`: the answer is a child boundary and its parent allows the node's marks;
+    `insertPoint_insert_applies` (`insertGuard`: `insideTextGuard` — the answer is a child boundary, or inside a text child
+    whose parent accepts `text n text` — and the parent allows the node's marks;
     `TextStable`): `tr.insert(p, n)` plans `ReplaceStep(p, p, Slice([n], 0, 0))` (`fits_trivially`), the step applies, the
     result is valid; `dropPoint_drop_applies_closed` (closed slice answered by the first pass, `dropGuard`, `TextStable`):
     the same for `tr.replace(p, p, slice)`; `dropPoint_drop_applies_partial` (open slices / second pass: through the Fitter,
     only validity of an applied step); `joinPoint_canJoin` (a join point is a position `can_join` approves, `dir ≠ 0`) and
-    `joinPoint_join_applies`.  Counterexamples `insertPoint_needs_guard_marks/_text`, `dropPoint_needs_guard`,
-    `joinPoint_needs_guard`.  Helpers: Proofs/InsertSuccess.lean, ResolveBoundary.lean, JoinPointSuccess.lean;
+    `joinPoint_join_applies`; `dropPoint_pass2_through_fitter` (an answer of `drop_point`'s second pass never fits
+    trivially: the edit is the Fitter's); `insertPoint_insert_succeeds_marked_partial` (a node with marks the parent does
+    not allow: the Fitter inserts it with those marks dropped — proved for that answer of the Fitter);
+    `insertGuard_of_text` / `insertPoint_insert_text_applies` (for a text node the inside-text guard follows from the
+    approval: typing succeeds at every insert point); `insertPoint_marked_through_fitter`; `insertPoint_insert_marked_top` (at a top-level insert point the
+    Fitter's run is evaluated exactly, Proofs/FitTopLevel.lean: the node goes in with the disallowed marks dropped);
+    `canChangeType_setNodeMarkup_applies` / `…_leaf_applies` (`changeTypeGuard`: the new type accepts the node's children —
+    `can_change_type` does not look — and the parent allows the new marks).  Counterexamples
+    `insertPoint_needs_guard_marks/_text`, `dropPoint_needs_guard`, `joinPoint_needs_guard`, `canChangeType_needs_guard`.
+    Helpers: Proofs/InsertSuccess.lean, ResolveBoundary.lean, JoinPointSuccess.lean, RetypeSuccess.lean;
     guards in PM/InsertGuard.lean; tie: Driver/ExtIns.lean.
   Helpers: Proofs/Respects.lean, Proofs/StructEdit.lean, Proofs/Structure2.lean.
 -/
@@ -46,6 +55,8 @@ import Proofs.LiftSuccess
 import Proofs.LiftSplit
 import Proofs.InsertSuccess
 import Proofs.JoinPointSuccess
+import Proofs.RetypeSuccess
+import Proofs.FitTopLevel
 namespace PM.C12
 open PM
 
@@ -1200,9 +1211,9 @@ example : liftGuard exSchema liftDoc 2 3 1 0 = true ∧ liftGuard lift2Schema li
         parent's content, marks included (`insMarkSchema` below: a marked paragraph into `doc`);
     (b) when `pos` is strictly inside a text child and the parent approves, `insert_point` returns `pos` itself; the test
         read "`n` in front of that text", the insertion puts `n` between its two halves (`insTextSchema` below: content
-        `image? text* image`).  Inside a text child of a `text*` / `inline*` parent the insertion does succeed; the
-        theorem below does not cover that case (its weakest guard there would be
-        `parent.can_replace(index + 1, index + 1, [n, text])`; not proved: the replace lemma for a cut text child). -/
+        `image? text* image`).  The guard asks there for `parent.can_replace(index + 1, index + 1, [n, that text])` and a
+        cut that does not fall inside a surrogate pair (`insideTextGuardR`); it holds inside every text child of a
+        `text*` / `inline*` parent, and at every child boundary. -/
 
 private theorem fnorm_single (n : Node) (h : n.norm = true) : fnorm [n] = true := by
   simp [fnorm, fnormKids, chainOk, h]
@@ -1228,34 +1239,43 @@ theorem insertPoint_insert_applies (S : Schema) (hts : C01.TextStable S) (doc : 
     | leaf t a m => simp [C01.IsElem, Node.isLeaf] at hdoc
     | elem ty0 a0 m0 K =>
       have hn' : fnorm K = true := by simpa [Node.kids] using hn
-      -- where the answer lies
-      have hat : ∃ d sd i, (d < r.depth ∨ r.textOffset = 0) ∧ AtBoundary r d sd i p ∧
-          S.nodeCanReplaceWith (r.node d) i i ty = some true := by
-        rcases insertPointR_spec S r ty p hc with ⟨hp, hcr⟩ | ⟨d, sd, i, hd, hat, hcr⟩
-        · refine ⟨r.depth, .before, r.index r.depth, .inr ?_, ⟨Nat.le_refl _, rfl, by rw [hp]; exact before_innermost r⟩, hcr⟩
-          rw [hp, R.pos_eq] at hg
-          simp only [insertGuard, hr, Bool.and_eq_true, beq_iff_eq] at hg
-          exact hg.1
-        · exact ⟨d, sd, i, .inl hd, hat, hcr⟩
-      obtain ⟨d, sd, i, hb, hat, hcr⟩ := hat
-      obtain ⟨rp, hrp, htyp, _, _, _⟩ := boundary_resolve S hr hn' d sd i p hb hat
-      simp only [insertGuard, hrp, Bool.and_eq_true] at hg
-      rw [htyp] at hg
-      have hcr' : S.nodeCanReplace (r.node d) i i [n] = some true := by
+      have hnC := fnorm_single n hnn
+      have hpos := Node.size_pos_of_norm n hnn
+      have conv : ∀ (node : Node) (i : Nat), (S.nodeType (S.tyOf node)).allowsMarks n.marks = true →
+          S.nodeCanReplaceWith node i i ty = some true → S.nodeCanReplace node i i [n] = some true := by
+        intro node i hm hcr
         unfold Schema.nodeCanReplaceWith at hcr
         unfold Schema.nodeCanReplace
         split at hcr
         · simp at hcr
         · rename_i hlen
           rw [if_neg hlen]
-          exact canReplace_of_with S _ _ i i n ty hty hg.2 hcr
-      have hnC := fnorm_single n hnn
-      obtain ⟨doc', hap⟩ := boundary_insert_applies S hts ty0 a0 m0 K pos r hr hv hn' d sd i p hb hat [n] hnC hcr'
-      have hft := boundary_fitsTrivially S hr hn' d sd i p hb hat [n]
-      rw [hcr'] at hft
-      have hpos := Node.size_pos_of_norm n hnn
-      refine ⟨replaceStep_trivial S _ p p _ (by simp [Slice.size]; omega) hft, doc', hap, ?_⟩
-      exact C01.apply_valid S _ _ doc' hv (by simp [C01.PayloadValid, openValid, rightOpenValid, hvn]) hap
+          exact canReplace_of_with S _ _ i i n ty hty hm hcr
+      have fin : fitsTriviallyO S (.elem ty0 a0 m0 K) p p ⟨[n], 0, 0⟩ = some true →
+          (∃ doc', S.apply (.replace p p ⟨[n], 0, 0⟩ false) (.elem ty0 a0 m0 K) = .ok doc') →
+          replaceStep S (.elem ty0 a0 m0 K) p p ⟨[n], 0, 0⟩ = .ok (some (.replace p p ⟨[n], 0, 0⟩ false)) ∧
+          ∃ doc', S.apply (.replace p p ⟨[n], 0, 0⟩ false) (.elem ty0 a0 m0 K) = .ok doc' ∧ C01.Valid S doc' := by
+        intro hft ⟨doc', hap⟩
+        refine ⟨replaceStep_trivial S _ p p _ (by simp [Slice.size]; omega) hft, doc', hap, ?_⟩
+        exact C01.apply_valid S _ _ doc' hv (by simp [C01.PayloadValid, openValid, rightOpenValid, hvn]) hap
+      rcases insertPointR_spec S r ty p hc with ⟨hp, hcr⟩ | ⟨d, sd, i, hd, hat, hcr⟩
+      · -- the position itself
+        rw [hp, R.pos_eq] at hg ⊢
+        simp only [insertGuard, hr, Bool.and_eq_true] at hg
+        have hcr' := conv r.parent _ hg.2 hcr
+        obtain ⟨hft, hap⟩ := innermost_insert_applies S hts ty0 a0 m0 K pos r hr hv hn' [n] hnC hg.1 hcr'
+        rw [hp, R.pos_eq] at fin
+        exact fin hft hap
+      · -- a boundary of an ancestor
+        have hb : d < r.depth ∨ r.textOffset = 0 := .inl hd
+        obtain ⟨rp, hrp, htyp, _, _, _⟩ := boundary_resolve S hr hn' d sd i p hb hat
+        simp only [insertGuard, hrp, Bool.and_eq_true] at hg
+        rw [htyp] at hg
+        have hcr' := conv (r.node d) i hg.2 hcr
+        have hap := boundary_insert_applies S hts ty0 a0 m0 K pos r hr hv hn' d sd i p hb hat [n] hnC hcr'
+        have hft := boundary_fitsTrivially S hr hn' d sd i p hb hat [n]
+        rw [hcr'] at hft
+        exact fin hft hap
 
 /-- a non-trivial instance of all hypotheses: a blockquote for position 2 of `exDoc` (start of the first paragraph) goes
     in front of that paragraph, at position 1 -/
@@ -1264,6 +1284,14 @@ example : ∃ doc', exSchema.apply (.replace 1 1 ⟨[.elem 1 [] [] [.elem 2 [] [
   (insertPoint_insert_applies exSchema ex_stable exDoc 2 1 1 (.elem 1 [] [] [.elem 2 [] [] []]) rfl rfl rfl rfl rfl rfl
     rfl rfl).2
 example : insertGuard exSchema exDoc 1 (.elem 1 [] [] [.elem 2 [] [] []]) = true := by rfl
+
+/-- … and strictly inside a text child: `doc(p("ab"))`, the text node "x" at position 2 gives `doc(p("axb"))` -/
+private def exDocT : Node := .elem 0 [] [] [.elem 2 [] [] [.text [97, 98] []]]
+example : insertPoint exSchema exDocT 2 3 = some (some 2) ∧ insertGuard exSchema exDocT 2 (.text [120] []) = true ∧
+    insideTextGuard exSchema exDocT 2 [.text [120] []] = true := ⟨rfl, rfl, rfl⟩
+example : ∃ doc', exSchema.apply (.replace 2 2 ⟨[.text [120] []], 0, 0⟩ false) exDocT = .ok doc' ∧
+    C01.Valid exSchema doc' :=
+  (insertPoint_insert_applies exSchema ex_stable exDocT 2 3 2 (.text [120] []) rfl rfl rfl rfl rfl rfl rfl rfl).2
 
 /-- the guard is needed, (a): `doc: block+` (no marks allowed on its children), a paragraph carrying `em` -/
 private def insMarkSchema : Schema :=
@@ -1311,7 +1339,7 @@ theorem insertPoint_needs_guard_text :
     `drop_point` answers in two passes.  The first asks, walking up from `pos`, `node(d).can_replace(i, i, content)` for
     the slice's content below its open start; for a **closed** slice that is `fits_trivially` at the returned position:
     `tr.replace(p, p, slice)` (the edit harness/props/c12.py performs) is `ReplaceStep(p, p, slice)`.  Guard
-    (`dropGuard`): `p` not strictly inside a text child (as (b) above: `dropTextCex` below).  For an open slice, or an
+    (`dropGuard` = `insideTextGuard`, as (b) above; counterexample `dropPoint_needs_guard` below).  For an open slice, or an
     answer of the second pass (a wrapping for the first node exists), the edit goes through the Fitter:
     `dropPoint_drop_applies_partial`. -/
 
@@ -1339,7 +1367,7 @@ theorem dropPoint_of_pass1 (S : Schema) (doc : Node) (pos : Nat) (sl : Slice) (p
 theorem dropPoint_drop_applies_closed (S : Schema) (hts : C01.TextStable S) (doc : Node) (pos : Nat) (C : List Node)
     (p : Nat) (hdoc : C01.IsElem doc) (hv : C01.Valid S doc) (hn : fnorm doc.kids = true)
     (hvC : S.checkKids C = true) (hnC : fnorm C = true) (hsz : fsize C ≠ 0)
-    (hg : dropGuard doc p = true)
+    (hg : dropGuard S doc p C = true)
     (hc : dropPointPass1 S doc pos ⟨C, 0, 0⟩ = some (some p)) :
     dropPoint S doc pos ⟨C, 0, 0⟩ = some (some p) ∧
     replaceStep S doc p p ⟨C, 0, 0⟩ = .ok (some (.replace p p ⟨C, 0, 0⟩ false)) ∧
@@ -1357,17 +1385,27 @@ theorem dropPoint_drop_applies_closed (S : Schema) (hts : C01.TextStable S) (doc
     | elem ty0 a0 m0 K =>
       have hn' : fnorm K = true := by simpa [Node.kids] using hn
       obtain ⟨d, sd, i, hd, hcase, hat, hcr⟩ := dropLoop_spec S r C (r.depth + 1) p (Nat.le_refl _) hc
-      have hb : d < r.depth ∨ r.textOffset = 0 := by
-        rcases hcase with h | h
-        · exact .inl h
-        · rw [h, R.pos_eq] at hg
-          simp only [dropGuard, hr, beq_iff_eq] at hg
-          exact .inr hg
-      obtain ⟨doc', hap⟩ := boundary_insert_applies S hts ty0 a0 m0 K pos r hr hv hn' d sd i p hb hat C hnC hcr
-      have hft := boundary_fitsTrivially S hr hn' d sd i p hb hat C
-      rw [hcr] at hft
-      refine ⟨replaceStep_trivial S _ p p _ (by simp [Slice.size]; omega) hft, doc', hap, ?_⟩
-      exact C01.apply_valid S _ _ doc' hv (by simp [C01.PayloadValid, openValid, rightOpenValid, hvC]) hap
+      have fin : fitsTriviallyO S (.elem ty0 a0 m0 K) p p ⟨C, 0, 0⟩ = some true →
+          (∃ doc', S.apply (.replace p p ⟨C, 0, 0⟩ false) (.elem ty0 a0 m0 K) = .ok doc') →
+          replaceStep S (.elem ty0 a0 m0 K) p p ⟨C, 0, 0⟩ = .ok (some (.replace p p ⟨C, 0, 0⟩ false)) ∧
+          ∃ doc', S.apply (.replace p p ⟨C, 0, 0⟩ false) (.elem ty0 a0 m0 K) = .ok doc' ∧ C01.Valid S doc' := by
+        intro hft ⟨doc', hap⟩
+        refine ⟨replaceStep_trivial S _ p p _ (by simp [Slice.size]; omega) hft, doc', hap, ?_⟩
+        exact C01.apply_valid S _ _ doc' hv (by simp [C01.PayloadValid, openValid, rightOpenValid, hvC]) hap
+      rcases hcase with hlt | hp
+      · have hb : d < r.depth ∨ r.textOffset = 0 := .inl hlt
+        have hap := boundary_insert_applies S hts ty0 a0 m0 K pos r hr hv hn' d sd i p hb hat C hnC hcr
+        have hft := boundary_fitsTrivially S hr hn' d sd i p hb hat C
+        rw [hcr] at hft
+        exact fin hft hap
+      · -- the position itself
+        obtain ⟨hde, _, hi, hp⟩ := hp
+        subst hde
+        rw [hp, R.pos_eq] at hg fin ⊢
+        simp only [dropGuard, insideTextGuard, hr] at hg
+        rw [hi] at hcr
+        obtain ⟨hft, hap⟩ := innermost_insert_applies S hts ty0 a0 m0 K pos r hr hv hn' C hnC hg hcr
+        exact fin hft hap
 
 /-- a non-trivial instance of all hypotheses: `blockquote(p)` dropped at position 2 of `exDoc` goes to position 1 -/
 example : dropPoint exSchema exDoc 2 ⟨[.elem 1 [] [] [.elem 2 [] [] []]], 0, 0⟩ = some (some 1) ∧
@@ -1378,9 +1416,15 @@ example : dropPoint exSchema exDoc 2 ⟨[.elem 1 [] [] [.elem 2 [] [] []]], 0, 0
   dropPoint_drop_applies_closed exSchema ex_stable exDoc 2 [.elem 1 [] [] [.elem 2 [] [] []]] 1 rfl rfl rfl rfl rfl
     (by decide) rfl rfl
 
+/-- … and strictly inside a text child: the closed slice `["x"]` dropped at position 2 of `doc(p("ab"))` -/
+example : dropPoint exSchema exDocT 2 ⟨[.text [120] []], 0, 0⟩ = some (some 2) ∧
+    replaceStep exSchema exDocT 2 2 ⟨[.text [120] []], 0, 0⟩ = .ok (some (.replace 2 2 ⟨[.text [120] []], 0, 0⟩ false)) ∧
+    ∃ doc', exSchema.apply (.replace 2 2 ⟨[.text [120] []], 0, 0⟩ false) exDocT = .ok doc' ∧ C01.Valid exSchema doc' :=
+  dropPoint_drop_applies_closed exSchema ex_stable exDocT 2 [.text [120] []] 2 rfl rfl rfl rfl rfl (by decide) rfl rfl
+
 /-- the guard is needed: in `insTextSchema`, `doc(p("ab", image))`, the closed slice `[image]` dropped at position 2 -/
 example : dropPointPass1 insTextSchema splitCexDoc 2 ⟨[.leaf 3 [] []], 0, 0⟩ = some (some 2) := by rfl
-example : dropGuard splitCexDoc 2 = false := by rfl
+example : dropGuard insTextSchema splitCexDoc 2 [.leaf 3 [] []] = false := by rfl
 /-- (the refused step is `insertPoint_needs_guard_text`) -/
 theorem dropPoint_needs_guard :
     dropPoint insTextSchema splitCexDoc 2 ⟨[.leaf 3 [] []], 0, 0⟩ = some (some 2) ∧
@@ -1448,6 +1492,535 @@ theorem joinPoint_needs_guard : joinPoint cexSchema cexDoc 3 (-1) = some (some 3
     *after* it; from inside the second blockquote of `exDoc2` it answers 10 (the end of the document), where `can_join`
     says `None` -/
 example : joinPoint exSchema exDoc2 7 0 = some (some 10) ∧ canJoin exSchema exDoc2 10 = some none := ⟨rfl, rfl⟩
+
+/-! ### an approved change of type applies: `can_change_type` / `set_node_markup`
+
+    `can_change_type(doc, pos, type)` is `parent.can_replace_with(index, index + 1, type)`.  For a non-leaf node
+    `set_node_markup(pos, type, attrs, marks)` then emits `ReplaceAroundStep(pos, pos + size, pos + 1, pos + size - 1,
+    Slice([new empty node], 0, 0), 1, structure=True)` (`retypeStep`, PM/TypePlan.lean).  The unguarded statement
+      `canChangeType S doc pos ty = some true → ∃ doc', S.apply (retypeStep pos (pos + node.size) newNode) doc = .ok doc'`
+    is **false** for model and code alike: `can_change_type` does not ask whether the new type accepts the node's children
+    (`changeTypeCex` below: a paragraph with text changed into a blockquote; the real `set_node_markup` raises
+    `ValueError("Invalid content for node type blockquote")` by its own test, the step itself fails "Content does not fit
+    in gap").  `changeTypeGuard` (PM/InsertGuard.lean): the new type accepts the children, the parent allows the new
+    node's marks. -/
+
+/-- **`can_change_type` approves ∧ `changeTypeGuard` ⇒ `node_at(pos)` is the node after `pos` and the step
+    `set_node_markup` emits for it applies, giving a schema-valid document** (valid normal-form document; the node after
+    `pos` a non-leaf node; the new node `type.create(attrs, None, ms)` with a canonical mark set) -/
+theorem canChangeType_setNodeMarkup_applies (S : Schema) (doc : Node) (pos : Nat) (ty : TypeId) (a : Attrs)
+    (ms : Marks) (r : RPos) (tyN : TypeId) (aN : Attrs) (mN : Marks) (kidsN : List Node)
+    (hdoc : C01.IsElem doc) (hv : C01.Valid S doc) (hn : fnorm doc.kids = true)
+    (hr : doc.resolve pos = some r)
+    (hnode : r.parent.kids[r.index r.depth]? = some (.elem tyN aN mN kidsN))
+    (hcan : canonicalMarks S ms = true)
+    (hg : changeTypeGuard S doc pos ty ms = true)
+    (hc : canChangeType S doc pos ty = some true) :
+    doc.nodeAt pos = .ok (some (.elem tyN aN mN kidsN)) ∧
+    ∃ doc', S.apply (retypeStep pos (pos + (Node.elem tyN aN mN kidsN).size) (.elem ty a ms [])) doc = .ok doc' ∧
+      C01.Valid S doc' := by
+  have R := resolve_resolved hr
+  simp only [changeTypeGuard, hr, hnode, Bool.and_eq_true] at hg
+  have hg1 : S.validContent ty kidsN = true := hg.1
+  have hg2 := hg.2
+  simp only [canChangeType, hr] at hc
+  have hto : r.textOffset = 0 := by
+    apply Classical.byContradiction
+    intro ho
+    obtain ⟨s, m, hs, _⟩ := R.in_text ho
+    rw [hs] at hnode
+    simp at hnode
+  cases doc with
+  | text s m => simp [C01.IsElem, Node.isLeaf] at hdoc
+  | leaf t a' m => simp [C01.IsElem, Node.isLeaf] at hdoc
+  | elem ty0 a0 m0 K =>
+    have hn' : fnorm K = true := by simpa [Node.kids] using hn
+    obtain ⟨tyP, aP, mP, ctx, eP, hl⟩ := Resolved.lvl hr hn' r.depth (Nat.le_refl _)
+    obtain ⟨hsplit, hidx⟩ := list_split_at _ _ _ hnode
+    have E := R.entry r.depth (Nat.le_refl _)
+    have hpe : (r.entry r.depth).pos = r.start r.depth + fsize (r.parent.kids.take (r.index r.depth)) := E.pos_eq
+    have hple := E.pos_le
+    have hpos : pos = r.start r.depth + fsize (r.parent.kids.take (r.index r.depth)) := by
+      unfold RPos.textOffset at hto
+      rw [R.pos_eq] at hto
+      omega
+    have hty : S.tyOf r.parent = tyP := by
+      show S.tyOf (r.node r.depth) = tyP
+      rw [eP]; rfl
+    have hplen : (r.parent.kids.take (r.index r.depth)).length = r.index r.depth := by
+      rw [List.length_take]; omega
+    have hl' : Lvl ty0 K (r.start r.depth) r.depth tyP
+        (r.parent.kids.take (r.index r.depth) ++ .elem tyN aN mN kidsN :: r.parent.kids.drop (r.index r.depth + 1))
+        ctx := by
+      rw [← hsplit]; exact hl
+    have hnL := fnormKids_of_fnorm (hl'.norm hn')
+    simp only [fnormKids_append, Bool.and_eq_true] at hnL
+    have hcr : S.canReplaceWith tyP
+        (r.parent.kids.take (r.index r.depth) ++ .elem tyN aN mN kidsN :: r.parent.kids.drop (r.index r.depth + 1))
+        (r.parent.kids.take (r.index r.depth)).length ((r.parent.kids.take (r.index r.depth)).length + 1) ty []
+        = some true := by
+      unfold Schema.nodeCanReplaceWith at hc
+      split at hc
+      · simp at hc
+      · rw [← hsplit, hplen, ← hty]; exact hc
+    rw [hty] at hg2
+    obtain ⟨hsl, hins, hap⟩ := retype_applies S ty0 a0 m0 K hv hn' tyN aN mN kidsN hl' ty a ms hcr hg1 hg2
+    rw [← hpos] at hsl hap
+    have hnat : (Node.elem ty0 a0 m0 K).nodeAt pos = .ok (some (.elem tyN aN mN kidsN)) := by
+      rw [hpos]
+      exact nodeAtKids_lvlR hl' _ _ _ rfl hnL.1
+    refine ⟨hnat, _, by simpa [Node.size_elem] using hap, ?_⟩
+    have hckN : S.checkKids kidsN = true := by
+      have hpv := path_valid S R hv r.depth (Nat.le_refl _)
+      have hcn := checkNode_child S r.parent (.elem tyN aN mN kidsN) hpv (List.mem_of_getElem? hnode)
+      simp only [checkNode_elem, Bool.and_eq_true] at hcn
+      exact hcn.2
+    refine C01.apply_valid S _ _ _ hv ?_ hap
+    intro gap ins h1 h2
+    rw [hsl] at h1
+    simp only [Except.ok.injEq] at h1
+    subst h1
+    rw [hins] at h2
+    simp only [Except.ok.injEq, Option.some.injEq] at h2
+    subst h2
+    simp [openValid, rightOpenValid, checkNode_elem, hg1, hcan, hckN]
+
+/-- a non-trivial instance of all hypotheses: the blockquote of `liftDoc = doc(blockquote(p("a")))` keeps its type (a
+    change of attributes or marks only) — `can_change_type(doc, 0, blockquote)` -/
+example : canChangeType exSchema liftDoc 0 1 = some true ∧ changeTypeGuard exSchema liftDoc 0 1 [] = true := ⟨rfl, rfl⟩
+example : ∃ doc', exSchema.apply (retypeStep 0 5 (.elem 1 [] [] [])) liftDoc = .ok doc' ∧ C01.Valid exSchema doc' :=
+  (canChangeType_setNodeMarkup_applies exSchema liftDoc 0 1 [] [] ((liftDoc.resolve 0).get rfl) 1 [] []
+    [.elem 2 [] [] [.text [97] []]] rfl rfl rfl (Option.some_get _).symm rfl rfl rfl rfl).2
+
+/-- the guard is needed: in `exDoc = doc(blockquote(p("a"), p("b")))` the first paragraph (position 1) may become a
+    blockquote as far as `can_change_type` looks (`blockquote: block+` takes a blockquote there), but a blockquote does
+    not accept text -/
+theorem canChangeType_needs_guard : canChangeType exSchema exDoc 1 1 = some true ∧
+    changeTypeGuard exSchema exDoc 1 1 [] = false ∧
+    exSchema.apply (retypeStep 1 4 (.elem 1 [] [] [])) exDoc = .error .failed := by
+  refine ⟨rfl, rfl, ?_⟩
+  have hc1 : contentBetween exDoc 1 2 = some false :=
+    contentBetween_closesOpens _ _ _ (by rfl) (by omega) (by decide) (by rfl)
+  have hc2 : contentBetween exDoc 3 4 = some false :=
+    contentBetween_closesOpens _ _ _ (by rfl) (by omega) (by decide) (by rfl)
+  have hs : exDoc.slice 2 3 = .ok ⟨[.text [97] []], 0, 0⟩ := by
+    simp [Node.slice, exDoc, Node.kids, sliceKids, inRange, sliceScan, sliceHere, fcut, fcutLoop, depthAt, cutText]
+  have hcr : exSchema.canReplace 1 [] 0 0 [.text [97] []] 0 1 = some false := by decide
+  have hi : Slice.insertAt exSchema ⟨[.elem 1 [] [] []], 0, 0⟩ 1 [.text [97] []] = .ok none := by
+    simp [Slice.insertAt, insertInto, flatInsert, hcr]
+  simp [retypeStep, Schema.apply, hc1, hc2, hs, hi]
+
+/-! ### the second pass of `drop_point` (closed slice): always through the Fitter
+
+    When the first pass refuses the content at every depth, the second pass looks, at each depth, for a wrapping of the
+    slice's first node that the parent accepts there (`find_wrapping`, then `can_replace_with(i, i, wrapping[0])`).  The
+    follow-up edit `tr.replace(p, p, slice)` inserts the *unwrapped* slice: it never fits trivially at such an answer —
+    `fits_trivially(p, p, slice)` is the very test the first pass made at that depth and index, and it failed — so the
+    step is whatever the Fitter plans (its `find_fittable` pass 2 finds the wrapping again).  No case of a second-pass
+    answer avoids the Fitter. -/
+
+/-- **an answer of the second pass is handed to the Fitter**: `fits_trivially` is `False` at `p`, and `replace_step` is
+    `Fitter(p, p, slice).fit()` -/
+theorem dropPoint_pass2_through_fitter (S : Schema) (doc : Node) (pos : Nat) (C : List Node) (p : Nat)
+    (hdoc : C01.IsElem doc) (hn : fnorm doc.kids = true) (hsz : fsize C ≠ 0)
+    (h1 : dropPointPass1 S doc pos ⟨C, 0, 0⟩ = some none)
+    (hc : dropPoint S doc pos ⟨C, 0, 0⟩ = some (some p)) :
+    fitsTriviallyO S doc p p ⟨C, 0, 0⟩ = some false ∧
+    ∃ rp, doc.resolve p = some rp ∧
+      replaceStep S doc p p ⟨C, 0, 0⟩ = fitterFit S doc rp rp ⟨C, 0, 0⟩ (fitFuel S ⟨C, 0, 0⟩) := by
+  unfold dropPointPass1 at h1
+  unfold dropPoint at hc
+  cases hr : doc.resolve pos with
+  | none => simp [hr] at hc
+  | some r =>
+    simp only [hr, dropContent] at h1 hc
+    unfold dropPointR at hc
+    simp only [hsz, if_false, dropContent, h1] at hc
+    split at hc
+    · rename_i hcond
+      cases doc with
+      | text s m => simp [C01.IsElem, Node.isLeaf] at hdoc
+      | leaf t a m => simp [C01.IsElem, Node.isLeaf] at hdoc
+      | elem ty0 a0 m0 K =>
+        have hft := dropPass2_not_trivial S hr (by simpa [Node.kids] using hn) C p h1 hc
+        obtain ⟨rf, rt, hrf, hrt, hrs⟩ := replaceStep_nontrivial S _ p p ⟨C, 0, 0⟩
+          (by simp [Slice.size]; omega) hft
+        rw [hrf] at hrt
+        simp only [Option.some.injEq] at hrt
+        subst hrt
+        exact ⟨hft, rf, hrf, hrs⟩
+    · simp at hc
+
+/-- a non-trivial instance: the text "x" dropped at the start of `exDoc` — `doc` does not take text (first pass), a
+    paragraph around it would fit (second pass): position 0, through the Fitter -/
+example : dropPointPass1 exSchema exDoc 0 ⟨[.text [120] []], 0, 0⟩ = some none ∧
+    dropPoint exSchema exDoc 0 ⟨[.text [120] []], 0, 0⟩ = some (some 0) ∧
+    fitsTriviallyO exSchema exDoc 0 0 ⟨[.text [120] []], 0, 0⟩ = some false := ⟨rfl, rfl, rfl⟩
+
+/-! ### a node with marks the parent does not allow: `tr.insert` succeeds through the Fitter
+
+    For a node `n` whose marks the parent of the insert point does not allow, `fits_trivially` is `False` (it asks
+    `can_replace`, marks included) and `tr.insert(p, n)` goes through the Fitter, whose `place_nodes` puts in
+    `n.mark(parent.type.allowed_marks(n.marks))` (`strippedAt`, PM/InsertGuard.lean): on the real code the insertion succeeds
+    with the offending marks dropped (`insMarkSchema` above: `tr.insert(0, em(paragraph))` gives `doc(paragraph, …)`;
+    `ReplaceStep(0, 0, Slice([em(paragraph)]))` itself is refused).
+    **Partial**: proved is that the step with the stripped node applies and gives a valid document — whenever the Fitter
+    answers that step.  **Missing** (full statement: `insertPoint … = some (some p) → ∃ st doc', replaceStep S doc p p
+    ⟨[n], 0, 0⟩ = .ok (some st) ∧ S.apply st doc = .ok doc' ∧ C01.Valid S doc'`): that the Fitter's answer *is*
+    `ReplaceStep(p, p, Slice([strippedAt n], 0, 0))`.  The Fitter model (PM/Fitter.lean) has no success theorem; its run
+    on a closed one-node slice goes through `find_fittable`, `place_nodes`, `must_move_inline`, `close` (`findCloseLevel`,
+    `contentAfterFits`) — only totality is proved, for inline leaf/text slices (`C11.insertInline_total`).  The two
+    kernel-evaluated instances below are the model's Fitter on the counterexample. -/
+
+private theorem allowsMarks_allowed (nt : NodeType) (ms : Marks) : nt.allowsMarks (nt.allowedMarks ms) = true := by
+  simp [NodeType.allowsMarks, NodeType.allowedMarks, List.all_filter]
+
+theorem insertPoint_insert_succeeds_marked_partial (S : Schema) (hts : C01.TextStable S) (doc : Node) (pos : Nat)
+    (ty : TypeId) (p : Nat) (n : Node) (hdoc : C01.IsElem doc) (hv : C01.Valid S doc) (hn : fnorm doc.kids = true)
+    (hvn : S.checkNode (strippedAt S doc p n) = true) (hnn : n.norm = true) (hty : S.tyOf n = ty)
+    (hg : insideTextGuard S doc p [strippedAt S doc p n] = true)
+    (hc : insertPoint S doc pos ty = some (some p))
+    (_hfit : replaceStep S doc p p ⟨[n], 0, 0⟩ = .ok (some (.replace p p ⟨[strippedAt S doc p n], 0, 0⟩ false))) :
+    ∃ doc', S.apply (.replace p p ⟨[strippedAt S doc p n], 0, 0⟩ false) doc = .ok doc' ∧ C01.Valid S doc' := by
+  have hnn' : (strippedAt S doc p n).norm = true := by
+    unfold strippedAt; split <;> cases n <;> simp_all [Node.withMarks, Node.norm]
+  have hty' : S.tyOf (strippedAt S doc p n) = ty := by
+    rw [← hty]; unfold strippedAt; split <;> cases n <;> rfl
+  have hg' : insertGuard S doc p (strippedAt S doc p n) = true := by
+    unfold insertGuard
+    unfold insideTextGuard at hg
+    cases hrp : doc.resolve p with
+    | none => rfl
+    | some rp =>
+      simp only [hrp] at hg ⊢
+      rw [hg, Bool.true_and]
+      have : (strippedAt S doc p n).marks = (S.nodeType (S.tyOf rp.parent)).allowedMarks n.marks := by
+        unfold strippedAt; rw [hrp]; cases n <;> rfl
+      rw [this]
+      exact allowsMarks_allowed _ _
+  exact (insertPoint_insert_applies S hts doc pos ty p _ hdoc hv hn hvn hnn' hty' hg' hc).2
+
+/-- the model's Fitter on the counterexample: `tr.insert(0, em(paragraph))` in `insMarkSchema` plans the insertion of
+    the paragraph without the mark (as the real code does) -/
+example : strippedAt insMarkSchema exDoc 0 (.elem 2 [] [⟨0, []⟩] []) = .elem 2 [] [] [] := by rfl
+example : (match replaceStep insMarkSchema exDoc 0 0 ⟨[.elem 2 [] [⟨0, []⟩] []], 0, 0⟩ with
+     | .ok (some (.replace 0 0 sl' false)) => sl' == ⟨[.elem 2 [] [] []], 0, 0⟩
+     | _ => false) = true := by decide +kernel
+/-- … and on the second-pass drop point above: the text is wrapped in a paragraph -/
+example : (match replaceStep exSchema exDoc 0 0 ⟨[.text [120] []], 0, 0⟩ with
+     | .ok (some (.replace 0 0 sl' false)) => sl' == ⟨[.elem 2 [] [] [.text [120] []]], 0, 0⟩
+     | _ => false) = true := by decide +kernel
+
+/-- **… and for a leaf node** (`set_node_markup` on a leaf or text node is `replace_with(pos, pos + node_size, new_node)`):
+    `can_change_type` approves ∧ `changeTypeGuard` (here: the new leaf type accepts empty content, the parent allows the
+    new node's marks) ∧ `pos` is the start of the node ⇒ `node_at(pos)` is that node, the request fits trivially —
+    `replace_step` is `ReplaceStep(pos, pos + size, Slice([new node], 0, 0))` — the step applies and the result is valid -/
+theorem canChangeType_setNodeMarkup_leaf_applies (S : Schema) (doc : Node) (pos : Nat) (ty : TypeId) (a : Attrs)
+    (ms : Marks) (r : RPos) (c : Node)
+    (hdoc : C01.IsElem doc) (hv : C01.Valid S doc) (hn : fnorm doc.kids = true)
+    (hr : doc.resolve pos = some r) (hto : r.textOffset = 0)
+    (hnode : r.parent.kids[r.index r.depth]? = some c) (hcl : c.isLeaf = true)
+    (hcan : canonicalMarks S ms = true)
+    (hg : changeTypeGuard S doc pos ty ms = true)
+    (hc : canChangeType S doc pos ty = some true) :
+    doc.nodeAt pos = .ok (some c) ∧
+    replaceStep S doc pos (pos + c.size) ⟨[.leaf ty a ms], 0, 0⟩
+      = .ok (some (.replace pos (pos + c.size) ⟨[.leaf ty a ms], 0, 0⟩ false)) ∧
+    ∃ doc', S.apply (.replace pos (pos + c.size) ⟨[.leaf ty a ms], 0, 0⟩ false) doc = .ok doc' ∧ C01.Valid S doc' := by
+  have R := resolve_resolved hr
+  simp only [changeTypeGuard, hr, hnode, Bool.and_eq_true] at hg
+  have hck : c.kids = [] := by cases c <;> simp_all [Node.isLeaf, Node.kids]
+  rw [hck] at hg
+  simp only [canChangeType, hr] at hc
+  cases doc with
+  | text s m => simp [C01.IsElem, Node.isLeaf] at hdoc
+  | leaf t a' m => simp [C01.IsElem, Node.isLeaf] at hdoc
+  | elem ty0 a0 m0 K =>
+    have hn' : fnorm K = true := by simpa [Node.kids] using hn
+    obtain ⟨tyP, aP, mP, ctx, eP, hl⟩ := Resolved.lvl hr hn' r.depth (Nat.le_refl _)
+    obtain ⟨hsplit, hidx⟩ := list_split_at _ _ _ hnode
+    have E := R.entry r.depth (Nat.le_refl _)
+    have hpe : (r.entry r.depth).pos = r.start r.depth + fsize (r.parent.kids.take (r.index r.depth)) := E.pos_eq
+    have hple := E.pos_le
+    have hpos : pos = r.start r.depth + fsize (r.parent.kids.take (r.index r.depth)) := by
+      unfold RPos.textOffset at hto
+      rw [R.pos_eq] at hto
+      omega
+    have hty : S.tyOf r.parent = tyP := by
+      show S.tyOf (r.node r.depth) = tyP
+      rw [eP]; rfl
+    have hplen : (r.parent.kids.take (r.index r.depth)).length = r.index r.depth := by
+      rw [List.length_take]; omega
+    have hl' : Lvl ty0 K (r.start r.depth) r.depth tyP
+        (r.parent.kids.take (r.index r.depth) ++ c :: r.parent.kids.drop (r.index r.depth + 1)) ctx := by
+      rw [← hsplit]; exact hl
+    have hnL := fnormKids_of_fnorm (hl'.norm hn')
+    simp only [fnormKids_append, Bool.and_eq_true] at hnL
+    have hcr : S.canReplaceWith tyP
+        (r.parent.kids.take (r.index r.depth) ++ c :: r.parent.kids.drop (r.index r.depth + 1))
+        (r.parent.kids.take (r.index r.depth)).length ((r.parent.kids.take (r.index r.depth)).length + 1)
+        (S.tyOf (.leaf ty a ms)) [] = some true := by
+      unfold Schema.nodeCanReplaceWith at hc
+      split at hc
+      · simp at hc
+      · rw [← hsplit, hplen, ← hty]; exact hc
+    have hg2 := hg.2
+    rw [hty] at hg2
+    obtain ⟨hft, hap⟩ := rechild_applies S ty0 a0 m0 K hv hn' c hl' (.leaf ty a ms) rfl rfl hcr hg2
+    rw [← hpos] at hft hap
+    have hnat : (Node.elem ty0 a0 m0 K).nodeAt pos = .ok (some c) := by
+      rw [hpos]
+      exact nodeAtKids_lvlR hl' _ _ _ rfl hnL.1
+    refine ⟨hnat, replaceStep_trivial S _ _ _ _ (by simp [Slice.size]) hft, _, hap, ?_⟩
+    refine C01.apply_valid S _ _ _ hv ?_ hap
+    simp [C01.PayloadValid, openValid, rightOpenValid, Schema.checkNode, hcan, hg.1]
+
+/-- a non-trivial instance: content `(text image)*`, `doc(p("ab", image))`: the image (position 3) is re-created as an
+    image (a change of attributes or marks) -/
+example : canChangeType splitCexSchema splitCexDoc 3 3 = some true ∧
+    changeTypeGuard splitCexSchema splitCexDoc 3 3 [] = true := ⟨rfl, rfl⟩
+example : ∃ doc', splitCexSchema.apply (.replace 3 4 ⟨[.leaf 3 [] []], 0, 0⟩ false) splitCexDoc = .ok doc' ∧
+    C01.Valid splitCexSchema doc' :=
+  (canChangeType_setNodeMarkup_leaf_applies splitCexSchema splitCexDoc 3 3 [] [] ((splitCexDoc.resolve 3).get rfl)
+    (.leaf 3 [] []) rfl rfl rfl (Option.some_get _).symm rfl rfl rfl rfl rfl rfl).2.2
+
+/-- **… and such a node is always handed to the Fitter**: at an insert point whose parent does not allow the node's marks
+    `fits_trivially` is `False`, `replace_step` is `Fitter(p, p, Slice([n], 0, 0)).fit()` -/
+theorem insertPoint_marked_through_fitter (S : Schema) (doc : Node) (pos : Nat) (ty : TypeId) (p : Nat) (n : Node)
+    (hdoc : C01.IsElem doc) (hn : fnorm doc.kids = true) (hnn : n.norm = true) (hty : S.tyOf n = ty)
+    (hm : marksAllowedAt S doc p n = false)
+    (hc : insertPoint S doc pos ty = some (some p)) :
+    fitsTriviallyO S doc p p ⟨[n], 0, 0⟩ = some false ∧
+    ∃ rp, doc.resolve p = some rp ∧
+      replaceStep S doc p p ⟨[n], 0, 0⟩ = fitterFit S doc rp rp ⟨[n], 0, 0⟩ (fitFuel S ⟨[n], 0, 0⟩) := by
+  unfold insertPoint at hc
+  cases hr : doc.resolve pos with
+  | none => simp [hr] at hc
+  | some r =>
+    simp only [hr] at hc
+    have R := resolve_resolved hr
+    cases doc with
+    | text s m => simp [C01.IsElem, Node.isLeaf] at hdoc
+    | leaf t a m => simp [C01.IsElem, Node.isLeaf] at hdoc
+    | elem ty0 a0 m0 K =>
+      have hn' : fnorm K = true := by simpa [Node.kids] using hn
+      have hpos := Node.size_pos_of_norm n hnn
+      have hft : fitsTriviallyO S (.elem ty0 a0 m0 K) p p ⟨[n], 0, 0⟩ = some false := by
+        rcases insertPointR_spec S r ty p hc with ⟨hp, hcr⟩ | ⟨d, sd, i, hd, hat, hcr⟩
+        · rw [hp, R.pos_eq] at hm ⊢
+          simp only [marksAllowedAt, hr] at hm
+          simp only [fitsTriviallyO, hr, fitsTriviallyR, beq_self_eq_true, Bool.and_self, if_true]
+          rw [nodeCanReplace_of_with' S r.parent _ n ty hty hcr, hm]
+        · have hb : d < r.depth ∨ r.textOffset = 0 := .inl hd
+          obtain ⟨rp, hrp, htyp, _, _, _⟩ := boundary_resolve S hr hn' d sd i p hb hat
+          simp only [marksAllowedAt, hrp] at hm
+          rw [boundary_fitsTrivially S hr hn' d sd i p hb hat [n], nodeCanReplace_of_with' S (r.node d) i n ty hty hcr,
+            ← htyp, hm]
+      obtain ⟨rf, rt, hrf, hrt, hrs⟩ := replaceStep_nontrivial S _ p p ⟨[n], 0, 0⟩ (by simp [Slice.size]; omega) hft
+      rw [hrf] at hrt
+      simp only [Option.some.injEq] at hrt
+      subst hrt
+      exact ⟨hft, rf, hrf, hrs⟩
+
+example : marksAllowedAt insMarkSchema exDoc 0 (.elem 2 [] [⟨0, []⟩] []) = false := by rfl
+
+/-! ### typing: for a text node the inside-text guard is implied
+
+    In a `TextStable` schema the approval "a text node may go in front of this text child" already gives "`text n text`
+    may stand in its place" for a text node `n`: `insertGuard` reduces to its marks part and the alignment of the
+    position.  So `insertPoint_insert_applies` covers every insert point for text, at child boundaries and inside text
+    alike, with no guard on the content expression. -/
+
+theorem insertGuard_of_text (S : Schema) (hts : C01.TextStable S) (doc : Node) (pos : Nat) (p : Nat) (n : Node)
+    (hdoc : C01.IsElem doc) (hv : C01.Valid S doc) (hn : fnorm doc.kids = true)
+    (htext : S.tyOf n = S.textTy) (hal : pairAligned doc p = true) (hm : marksAllowedAt S doc p n = true)
+    (hc : insertPoint S doc pos S.textTy = some (some p)) : insertGuard S doc p n = true := by
+  unfold insertPoint at hc
+  cases hr : doc.resolve pos with
+  | none => simp [hr] at hc
+  | some r =>
+    simp only [hr] at hc
+    have R := resolve_resolved hr
+    cases doc with
+    | text s m => simp [C01.IsElem, Node.isLeaf] at hdoc
+    | leaf t a m => simp [C01.IsElem, Node.isLeaf] at hdoc
+    | elem ty0 a0 m0 K =>
+      have hn' : fnorm K = true := by simpa [Node.kids] using hn
+      rcases insertPointR_spec S r S.textTy p hc with ⟨hp, hcr⟩ | ⟨d, sd, i, hd, hat, hcr⟩
+      · rw [hp, R.pos_eq] at hm hal ⊢
+        simp only [marksAllowedAt, hr] at hm
+        simp only [pairAligned, hr] at hal
+        simp only [insertGuard, hr, hm, Bool.and_true]
+        by_cases ho : r.textOffset = 0
+        · simp [insideTextGuardR, ho]
+        · obtain ⟨s, m, hs, hlt⟩ := R.in_text ho
+          have hsp : splitOk s r.textOffset = true := by
+            simp only [RPos.pairOk, hs, Bool.or_eq_true, decide_eq_true_eq] at hal
+            exact hal.resolve_left ho
+          obtain ⟨hsplit, hidx⟩ := list_split_at _ _ _ hs
+          have hpv := path_valid S R hv r.depth (Nat.le_refl _)
+          obtain ⟨tyP, aP, mP, ctx, eP, _⟩ := Resolved.lvl hr hn' r.depth (Nat.le_refl _)
+          have hvL : S.validContent (S.tyOf r.parent) r.parent.kids = true :=
+            validContent_of_checkNode S r.parent tyP aP mP eP hpv
+          have hplen : (r.parent.kids.take (r.index r.depth)).length = r.index r.depth := by
+            rw [List.length_take]; omega
+          have hcr' : S.canReplaceWith (S.tyOf r.parent)
+              (r.parent.kids.take (r.index r.depth) ++ .text s m :: r.parent.kids.drop (r.index r.depth + 1))
+              (r.parent.kids.take (r.index r.depth)).length (r.parent.kids.take (r.index r.depth)).length S.textTy []
+              = some true := by
+            unfold Schema.nodeCanReplaceWith at hcr
+            split at hcr
+            · simp at hcr
+            · rw [← hsplit, hplen]; exact hcr
+          have hfin := canReplace_text_between S hts (S.tyOf r.parent) _ _ s m n htext
+            (by rw [← hsplit]; exact hvL) hm hcr'
+          rw [← hsplit, hplen] at hfin
+          simp only [insideTextGuardR, hs, hsp, Bool.true_and, Bool.or_eq_true, beq_iff_eq]
+          right
+          unfold Schema.nodeCanReplace
+          rw [if_neg (by omega)]
+          simpa using hfin
+      · obtain ⟨rp, hrp, _, _, _, hto⟩ := boundary_resolve S hr hn' d sd i p (.inl hd) hat
+        simp only [marksAllowedAt, hrp] at hm
+        simp [insertGuard, hrp, insideTextGuardR, hto, hm]
+
+/-- **typing text at an insert point succeeds** — `insertPoint_insert_applies` without a guard on the content
+    expression: valid normal-form document, `TextStable` schema, a non-empty text node whose marks the parent of `p` allows,
+    `p` pair-aligned -/
+theorem insertPoint_insert_text_applies (S : Schema) (hts : C01.TextStable S) (doc : Node) (pos : Nat) (p : Nat)
+    (n : Node) (hdoc : C01.IsElem doc) (hv : C01.Valid S doc) (hn : fnorm doc.kids = true)
+    (hvn : S.checkNode n = true) (hnn : n.norm = true) (htext : S.tyOf n = S.textTy)
+    (hal : pairAligned doc p = true) (hm : marksAllowedAt S doc p n = true)
+    (hc : insertPoint S doc pos S.textTy = some (some p)) :
+    replaceStep S doc p p ⟨[n], 0, 0⟩ = .ok (some (.replace p p ⟨[n], 0, 0⟩ false)) ∧
+    ∃ doc', S.apply (.replace p p ⟨[n], 0, 0⟩ false) doc = .ok doc' ∧ C01.Valid S doc' :=
+  insertPoint_insert_applies S hts doc pos S.textTy p n hdoc hv hn hvn hnn htext
+    (insertGuard_of_text S hts doc pos p n hdoc hv hn htext hal hm hc) hc
+
+/-- an instance: "x" typed between "a" and "b" of `doc(p("ab"))` -/
+example : ∃ doc', exSchema.apply (.replace 2 2 ⟨[.text [120] []], 0, 0⟩ false) exDocT = .ok doc' ∧
+    C01.Valid exSchema doc' :=
+  (insertPoint_insert_text_applies exSchema ex_stable exDocT 2 2 (.text [120] []) rfl rfl rfl rfl rfl rfl rfl rfl rfl).2
+
+/-! ### a node with marks the parent does not allow, at a top-level insert point: the Fitter's run evaluated
+
+    When the insert point is a child boundary of the top node (depth 0, the top node not a textblock: `topBoundary`), the
+    Fitter's run on `Slice([n], 0, 0)` is short enough to evaluate exactly (Proofs/FitTopLevel.lean): `find_fittable` hits at
+    once, `place_nodes` places `n` with the disallowed marks dropped, `close` finds level 0 with nothing to fill.  This is
+    the case found on the real code (a marked block node into `doc`).  For deeper insert points the same statement is
+    `insertPoint_insert_succeeds_marked_partial` (the Fitter's answer as a hypothesis; on the real code and on the model's
+    Fitter it held in every case the tie ran). -/
+
+/-- **`insert_point` answers a top-level `p` ∧ the parent does not allow the node's marks ⇒ `tr.insert(p, n)` plans
+    `ReplaceStep(p, p, Slice([n with those marks dropped], 0, 0))` through the Fitter, the step applies and the result is
+    schema-valid** -/
+theorem insertPoint_insert_marked_top (S : Schema) (hts : C01.TextStable S) (doc : Node) (pos : Nat) (ty : TypeId)
+    (p : Nat) (n : Node) (hdoc : C01.IsElem doc) (hv : C01.Valid S doc) (hn : fnorm doc.kids = true)
+    (hvn : S.checkNode (strippedAt S doc p n) = true) (hnn : n.norm = true) (hty : S.tyOf n = ty)
+    (htop : topBoundary S doc p = true) (hm : marksAllowedAt S doc p n = false)
+    (hc : insertPoint S doc pos ty = some (some p)) :
+    replaceStep S doc p p ⟨[n], 0, 0⟩ = .ok (some (.replace p p ⟨[strippedAt S doc p n], 0, 0⟩ false)) ∧
+    ∃ doc', S.apply (.replace p p ⟨[strippedAt S doc p n], 0, 0⟩ false) doc = .ok doc' ∧ C01.Valid S doc' := by
+  obtain ⟨_, rp, hrp, hrs⟩ := insertPoint_marked_through_fitter S doc pos ty p n hdoc hn hnn hty hm hc
+  have Rp := resolve_resolved hrp
+  simp only [topBoundary, hrp, Bool.and_eq_true, beq_iff_eq, Bool.not_eq_true'] at htop
+  obtain ⟨⟨hd0, hto⟩, hnt⟩ := htop
+  have hnode0 : rp.node 0 = doc := Rp.node_zero
+  have hpar : rp.parent = doc := by simp [RPos.parent, hd0, hnode0]
+  -- what `insert_point` established, read at `p`
+  have hcrp : S.nodeCanReplaceWith doc (rp.index 0) (rp.index 0) ty = some true := by
+    unfold insertPoint at hc
+    cases hr : doc.resolve pos with
+    | none => simp [hr] at hc
+    | some r =>
+      simp only [hr] at hc
+      have R := resolve_resolved hr
+      cases doc with
+      | text s m => simp [C01.IsElem, Node.isLeaf] at hdoc
+      | leaf t a m => simp [C01.IsElem, Node.isLeaf] at hdoc
+      | elem ty0 a0 m0 K =>
+        rcases insertPointR_spec S r ty p hc with ⟨hp, hcr⟩ | ⟨d, sd, i, hd, hat, hcr⟩
+        · rw [hp, R.pos_eq] at hrp
+          rw [hr] at hrp
+          simp only [Option.some.injEq] at hrp
+          subst hrp
+          rw [hpar, hd0] at hcr
+          exact hcr
+        · obtain ⟨rp', hrp', htyp, hk, hi, _⟩ := boundary_resolve S hr (by simpa [Node.kids] using hn) d sd i p
+            (.inl hd) hat
+          rw [hrp] at hrp'
+          simp only [Option.some.injEq] at hrp'
+          subst hrp'
+          rw [hpar] at htyp hk
+          rw [hd0] at hi
+          unfold Schema.nodeCanReplaceWith at hcr ⊢
+          rw [← htyp, ← hk, ← hi] at hcr
+          exact hcr
+  have hia : rp.indexAfter 0 = rp.index 0 := by simp [RPos.indexAfter, hd0, hto]
+  -- the automaton states the Fitter walks through
+  have hvd : S.validContent (S.tyOf doc) doc.kids = true := by
+    cases doc with
+    | text s m => simp [C01.IsElem, Node.isLeaf] at hdoc
+    | leaf t a m => simp [C01.IsElem, Node.isLeaf] at hdoc
+    | elem ty0 a0 m0 K =>
+      have : S.checkNode (.elem ty0 a0 m0 K) = true := hv
+      simp only [checkNode_elem, Bool.and_eq_true] at this
+      exact this.1.1
+  have hmk : invalidMarks S (S.tyOf doc) (doc.kids.drop (rp.index 0)) = false := by
+    have hall := allowsMarks_of_valid S _ _ hvd
+    simp only [invalidMarks, List.any_eq_false, Bool.not_eq_true', Bool.not_eq_false]
+    intro c hcm
+    exact hall c (List.mem_of_mem_drop hcm)
+  unfold Schema.nodeCanReplaceWith Schema.canReplaceWith at hcrp
+  simp only [List.isEmpty_nil, Bool.not_true, Bool.false_and, Bool.false_eq_true, if_false] at hcrp
+  split at hcrp
+  · simp at hcrp
+  · split at hcrp
+    · simp at hcrp
+    · rename_i q hq
+      split at hcrp
+      · simp at hcrp
+      · rename_i q' hq'
+        split at hcrp
+        · simp at hcrp
+        · rename_i q2 hq2
+          simp only [Option.some.injEq] at hcrp
+          have hfit := fitterFit_top S doc rp n hd0 (by rw [hnode0]; exact hnt) q q' q2
+            (by rw [hnode0, hia]; exact hq) (by rw [hnode0, hty]; exact hq') (by rw [hnode0]; exact hq2)
+            (by rw [hnode0]; exact hcrp) (by rw [hnode0]; exact hmk)
+            (by have := Node.size_pos_of_norm n hnn; omega) (fitMeasure ⟨[n], 0, 0⟩ (0 + 1))
+          have hstrip : strippedAt S doc p n = n.withMarks ((S.nodeType (S.tyOf (rp.node 0))).allowedMarks n.marks) := by
+            simp [strippedAt, hrp, hpar, hnode0]
+          have hstep : replaceStep S doc p p ⟨[n], 0, 0⟩
+              = .ok (some (.replace p p ⟨[strippedAt S doc p n], 0, 0⟩ false)) := by
+            rw [hrs, hstrip]
+            have : fitFuel S ⟨[n], 0, 0⟩ = fitMeasure ⟨[n], 0, 0⟩ (0 + 1) + 1 := rfl
+            rw [this, hfit, Rp.pos_eq]
+          refine ⟨hstep, ?_⟩
+          have hg : insideTextGuard S doc p [strippedAt S doc p n] = true := by
+            simp [insideTextGuard, hrp, insideTextGuardR, hto]
+          exact insertPoint_insert_succeeds_marked_partial S hts doc pos ty p n hdoc hv hn hvn hnn hty hg hc hstep
+
+/-- a non-trivial instance of all hypotheses: the paragraph carrying `em` at position 0 of `exDoc` in `insMarkSchema` -/
+example : ∃ doc', insMarkSchema.apply (.replace 0 0 ⟨[.elem 2 [] [] []], 0, 0⟩ false) exDoc = .ok doc' ∧
+    C01.Valid insMarkSchema doc' :=
+  (insertPoint_insert_marked_top insMarkSchema (textStable_of_C _ (by decide)) exDoc 0 2 0 (.elem 2 [] [⟨0, []⟩] [])
+    rfl rfl rfl rfl rfl rfl rfl rfl rfl).2
+
+/-- … and one level down, where the Fitter's answer is a hypothesis (`insertPoint_insert_succeeds_marked_partial`): the
+    model's Fitter, kernel-evaluated, on the marked paragraph put in at position 1 (inside the blockquote, which allows no
+    marks here) — again the insertion of the paragraph without the mark -/
+private def insMarkSchema2 : Schema :=
+  { nodes := #[exNT "doc" false false blocksDfa, { exNT "blockquote" false false blocksDfa with markSet := some [] },
+      exNT "paragraph" false true #[⟨true, [(3, 0)]⟩], exNT "text" true false #[⟨true, []⟩]],
+    marks := #[⟨"em", [0], true, []⟩], top := 0, textTy := 3 }
+example : insertPoint insMarkSchema2 exDoc 1 2 = some (some 1) ∧
+    marksAllowedAt insMarkSchema2 exDoc 1 (.elem 2 [] [⟨0, []⟩] []) = false ∧
+    topBoundary insMarkSchema2 exDoc 1 = false ∧
+    strippedAt insMarkSchema2 exDoc 1 (.elem 2 [] [⟨0, []⟩] []) = .elem 2 [] [] [] := ⟨rfl, rfl, rfl, rfl⟩
+example : (match replaceStep insMarkSchema2 exDoc 1 1 ⟨[.elem 2 [] [⟨0, []⟩] []], 0, 0⟩ with
+     | .ok (some (.replace 1 1 sl' false)) => sl' == ⟨[.elem 2 [] [] []], 0, 0⟩
+     | _ => false) = true := by decide +kernel
 
 /-! ### INSERT-END -/
 
